@@ -48,7 +48,7 @@ def oracle_regex(pattern):
 
 
 def bounds(tier):
-    return dict(n_max=tier_pick(tier, 10, 14), shapes=len(SHAPES if tier != "quick" else SHAPES[:13]),
+    return dict(n_max=tier_pick(tier, 10, 14), shapes=len(SHAPES if tier != "quick" else SHAPES[:15]),
                 target_kinds=["Seq linear", "Seq searched with linear=False", "SeqRecord", "CircularRecord"],
                 pos_endpos="0..n+2 and default")
 
@@ -232,7 +232,7 @@ def ob_group(ctx):
 
 
 SHAPES = [
-    "GNNNNNNNN(NN)C", "GA(N*)TC", "GA(N*?)TC", "A(NN*N)(K)C", "(M)GN*?(T)", "R(N)Y", "(GG)N{1,3}(CC)",
+    "AA(N)T", "ACA(N*?)G", "GNNNNNNNN(NN)C", "GA(N*)TC", "GA(N*?)TC", "A(NN*N)(K)C", "(M)GN*?(T)", "R(N)Y", "(GG)N{1,3}(CC)",
     "G(N)(N*)(N)C", "(S)(W+)(S)", "AN?T", "(A(N)T)", "C(N*)G(N*?)C", "(NN)(N*?)(NN)T",
     "GGTCTCN(NN)", "(B)(D*)(H)", "T(V+?)A", "(A)(C*)(G*)T", "N(N*?)N", "(K{2,3})M",
     "GAAGAC(NN)(N*?)A", "(Y)(R*)(Y)(R*?)G", "A(N{0,2})C", "((G)(N*))T", "W(S*?)W", "(N)(N)(N)",
@@ -248,7 +248,7 @@ def obligations(tier, seed):
         obs.append(Ob("letter %s vs all IUPAC letters" % code, ob_letter, dict(code=code, alphabet="IUPACcase"),
                       samples=8, cost=1))
     nmax = tier_pick(tier, 10, 14)
-    shapes = SHAPES[:13] if tier == "quick" else SHAPES
+    shapes = SHAPES[:15] if tier == "quick" else SHAPES
     kinds = ["seq", "seq-circ", "rec", "circ"]
     import random
 
